@@ -109,7 +109,24 @@ func (g *Gen) pick(p pred) int {
 	if g.c18 && len(sh) > 0 && g.r.Intn(2) == 0 {
 		return sh[g.r.Intn(len(sh))]
 	}
+	// one time in five a view that does not fill its window, if there is one: kernels that run over the
+	// window instead of the view's elements only show on those
+	if g.r.Intn(5) == 0 {
+		var gappy []int
+		for _, i := range c {
+			if gappyView(g.w.slots[i]) {
+				gappy = append(gappy, i)
+			}
+		}
+		if len(gappy) > 0 {
+			return gappy[g.r.Intn(len(gappy))]
+		}
+	}
 	return c[g.r.Intn(len(c))]
+}
+
+func gappyView(t *tensor.Dense) bool {
+	return t != nil && t.IsView() && t.DataSize() != t.Shape().TotalSize()
 }
 
 // tainted reports whether slot i shares storage with a shared tensor (C18) or is one.
@@ -154,6 +171,17 @@ func (g *Gen) pickWritable(p pred) int {
 	}
 	if len(c) == 0 {
 		return -1
+	}
+	if g.r.Intn(5) == 0 {
+		var gappy []int
+		for _, i := range c {
+			if gappyView(g.w.slots[i]) {
+				gappy = append(gappy, i)
+			}
+		}
+		if len(gappy) > 0 {
+			return gappy[g.r.Intn(len(gappy))]
+		}
 	}
 	return c[g.r.Intn(len(c))]
 }
@@ -433,6 +461,12 @@ func (g *Gen) genFamily(fam string) (Op, bool) {
 		a := g.pick(func(t *tensor.Dense) bool { return t.Dims() > 0 })
 		if a < 0 {
 			return Op{}, false
+		}
+		if r.Intn(4) == 0 {
+			// cuts of lazily transposed tensors: the axis that is outermost by the layout flag is not outermost in memory
+			if x := g.pick(func(t *tensor.Dense) bool { return t.Dims() > 1 && tensor.VerifInternals(t).HasOld }); x >= 0 {
+				a = x
+			}
 		}
 		t := w.get(a)
 		if r.Intn(5) == 0 {
